@@ -1,8 +1,44 @@
 import Driver.CodecCommon
-/-! Driver for C03 (independent reader of saved files); see `Driver/CodecCommon.lean` for commands. -/
+import Aoe.Model.Players
+/-! Driver for C03 (independent reader of saved files); see `Driver/CodecCommon.lean` for commands.
+Also the per-player lists of `PlayerManager` (`Aoe.Model.Players`):
+  `plist <g> <default> <fill> <v0,...,v8>`  → the list `_player_attributes_to_list` hands to push (`g` = N | T | F)
+  `pspread <g> <list>`                      → what players 0..8 receive from a pulled list (`absent` = not in the list) -/
 open Driver
+
+def parseG? : String → Option (Option Bool)
+  | "N" => some none
+  | "T" => some (some true)
+  | "F" => some (some false)
+  | _ => none
+
+def parseOptList? (s : String) : Option (List (Option Int)) :=
+  if s == "-" then some [] else (s.splitOn ",").mapM parseOptInt?
+
+def showOptList (l : List (Option Int)) : String :=
+  if l.isEmpty then "-" else ",".intercalate (l.map showOptInt)
+
+def playersStep : List String → Option String
+  | ["plist", g, d, fill, vs] =>
+    match parseG? g, d.toInt?, fill.toNat?, parseOptList? vs with
+    | some g, some d, some fill, some vs =>
+      if vs.length = 9 then some (showOptList (Aoe.Players.attrsToList g d fill (fun p => (vs[p]?).getD none))) else some "bad-op"
+    | _, _, _, _ => some "bad-op"
+  | ["pspread", g, l] =>
+    match parseG? g, parseOptList? l with
+    | some g, some l =>
+      some (" ".intercalate ((List.range 9).map fun p =>
+        match Aoe.Players.spread g l p with
+        | some v => showOptInt v
+        | none => "absent"))
+    | _, _ => some "bad-op"
+  | _ => none
+
 def step (st : CState) (line : String) : CState × String :=
-  match codecStep st (words line) with
-  | some r => r
-  | none => (st, "bad-op")
+  match playersStep (words line) with
+  | some r => (st, r)
+  | none =>
+    match codecStep st (words line) with
+    | some r => r
+    | none => (st, "bad-op")
 def main : IO Unit := loop step {}
